@@ -236,7 +236,56 @@ def announced_additions(warn):
     return out
 
 
+REPORTS = {"last": lambda n: " -punch_cells %d\n -print_cells %d\n -punch_frequency 1\n -print_frequency 1" % (n, n),
+           "freq2": lambda n: " -punch_cells 1-%d\n -punch_frequency 2\n -print_frequency 2" % n,
+           "none": lambda n: " -punch_cells %d\n -print_cells %d\n -punch_frequency 1000\n -print_frequency 1000" % (n, n)}
+
+
+def run_report_case(case):
+    """ADVECTION without reactants: `shifts` shifts with a restricted report set (only the last cell / every second shift /
+    nothing), then one more shift of the same column with every cell reported.  What is printed or punched must not matter:
+    after shifts + 1 shifts cell i holds the initial solution of cell i - (shifts + 1), or the inflow solution."""
+    s = phr.Session(DBNAME)
+    n, K = case["n"], case["shifts"] + 1
+    base = build_input(dict(case, fam="ADV", dir="forward"))
+    head, _, adv = base.rpartition("ADVECTION")
+    first = "ADVECTION\n -cells %d\n -shifts %d\n -time_step %r\n%s\nEND\n" % (n, case["shifts"], case["dt"], REPORTS[case["report"]](n))
+    second = "ADVECTION\n -cells %d\n -shifts 1\n -time_step %r\n -punch_cells 1-%d\n -print_cells 1-%d\n -punch_frequency 1\n -print_frequency 1\nEND\n" % (n, case["dt"], n, n)
+    text = head + first + second
+    res = s.run(text)
+    out = {"case": case, "problems": [], "ops": 1, "states": [core.sha(repr(sorted(case.items())))], "script": s.d.script(), "diagnostics": []}
+    if res["rc"] != 0 or res["err"]:
+        out.update(not_completed=True, outcome="not-completed", sample={"case": case, "rc": res["rc"], "err": (res["err"] or "")[:300]})
+        return out
+    rows = res["sel"].get(1, [])
+    init = {r["soln"]: r for r in rows if r.get("state") == "i_soln"}
+    last = [r for r in rows if r.get("state") == "advect"][-n:]
+    if len(last) != n or sorted(r["soln"] for r in last) != list(range(1, n + 1)):
+        raise RuntimeError("fully reported final shift: expected one row per cell, got %r (%r)" % ([r.get("soln") for r in last], case))
+    fields = ELEMENTS + ["H", "O", "w", "cb", "tc"]
+    worst = 0.0
+    for r in last:
+        i = r["soln"]
+        src = init[i - K] if i - K >= 1 else init[0]
+        sc = sum(abs(src[f]) for f in ELEMENTS)
+        for f in fields:
+            if src[f] != 0 and f != "cb":
+                worst = max(worst, abs(src[f] - r[f]) / abs(src[f]))
+            if not orc._close(src[f], r[f], sc if f == "cb" else 0.0):
+                out["problems"].append(("shift depends on what is reported: ADVECTION report=%s" % case["report"],
+                                        "pure advection, %d shifts reported as '%s' then one fully reported shift: cell %d has %s = %.17g, its source (%s) had %.17g" % (
+                                            case["shifts"], case["report"], i, f, r[f], "cell %d" % (i - K) if i - K >= 1 else "inflow solution", src[f])))
+                break
+        if out["problems"]:
+            break
+    out["outcome"] = core.sha(repr([[round(r[f], 12) for f in ELEMENTS] for r in last]))
+    out["sample"] = {"case": case, "worst_relative": worst}
+    return out
+
+
 def run_case(case):
+    if case.get("report"):
+        return run_report_case(case)
     # a brand-new instance per case: TRANSPORT settings (e.g. -stagnant) survive LoadDatabase on a used instance
     s = phr.Session(DBNAME)
     text = build_input(case)
@@ -388,6 +437,9 @@ def families(tier):
         # A2: ADVECTION keyword (no solid: exact shift; solids: balance)
         fam.append(("ADVECTION keyword", P(
             "ADV", n=N, shifts=[1, 2, 3], dt=[1e3], dir=["forward"], pat=PATTERNS, inflow=[0, 1], solid=["none", "exchange", "calcite"])))
+        # A3: what is printed / punched during ADVECTION must not matter
+        fam.append(("ADVECTION, restricted report set then one fully reported shift", P(
+            "ADV", n=[2, 3, 5, 8], shifts=[1, 2, 3], dt=[1e3], dir=["forward"], pat=PATTERNS, inflow=[0, 1], solid=["none"], report=sorted(REPORTS))))
         # S: reactive solids: closed diffusion-only column (inventory incl. solids) and pure advection (balance)
         fam.append(("solids, diffusion-only closed", P(
             "TR", n=[1, 2, 3, 5], len=["equal"], D_dt=[(1e-9, 1e3), (1e-9, 1e6)], shifts=SH, dir=["diffusion_only"], bc=[["closed", "closed"]],
@@ -413,6 +465,8 @@ def families(tier):
             stag=[0, 1, 3], pat=PATTERNS, inflow=[0], disp=[0.0], mode=["mcd", "implicit"])))
         fam.append(("ADVECTION keyword", P(
             "ADV", n=N + NL, shifts=[1, 2, 3, 10], dt=[1e3], dir=["forward"], pat=PATTERNS, inflow=[0, 1], solid=["none", "exchange", "calcite"])))
+        fam.append(("ADVECTION, restricted report set then one fully reported shift", P(
+            "ADV", n=N + NL, shifts=[1, 2, 3, 4, 10], dt=[1e3], dir=["forward"], pat=PATTERNS, inflow=[0, 1], solid=["none"], report=sorted(REPORTS))))
         fam.append(("solids, diffusion-only closed", P(
             "TR", n=N + NL, len=["equal"], D_dt=[(1e-9, 1e3), (3e-10, 1e6), (1e-9, 1e6)], shifts=SH, dir=["diffusion_only"], bc=[["closed", "closed"]],
             stag=[0], pat=PATTERNS, inflow=[0], disp=[0.0], mode=["plain"], solid=["exchange", "calcite", "kinrk", "kincv"])))
